@@ -5,6 +5,7 @@ import (
 	"strings"
 
 	"verifh/fs3"
+	"verifh/walk"
 )
 
 func init() {
@@ -227,6 +228,51 @@ func runC12(c *Case) {
 					fail(sig+":to-omitted", fmt.Sprintf("from %s, 'to' omitted: %s", A.Raw, msg))
 					break
 				}
+			}
+		}
+	}
+	// a 'from' version whose objects are gone (the well-formed "no such object" answer a vacuum
+	// leaves behind) must fail the query, never pass for an empty version
+	if c.Res.Status != "violated" && len(vs) >= 2 {
+		base := walk.Base(w.prefix)
+		cur := &vs[len(vs)-1]
+		if last, err := h.record(c, steps+1, 0); err == nil && last != nil {
+			cur = last
+		}
+		for trial := 0; trial < 2; trial++ {
+			A := &vs[r.Intn(len(vs))]
+			if len(A.Names) != 1 || A.Raw == cur.Raw || len(A.Dump) == 0 {
+				continue
+			}
+			snap := w.st.Snapshot()
+			name := A.Names[0]
+			what := ""
+			if trial == 0 {
+				w.st.DelRaw(base + "root/merged/" + name)
+				w.st.DelRaw(base + "root/current/" + name)
+				what = "version object"
+			} else {
+				b, _, ok := walk.FindVersion(snap, base, name)
+				if !ok {
+					continue
+				}
+				rt, err := walk.ParseRoot(b)
+				if err != nil || rt.Link == nil {
+					continue
+				}
+				// only if the current version does not use that very node
+				if walk.Reach(snap, base, cur.Names[0])[*rt.Link] {
+					continue
+				}
+				w.st.DelRaw(base + "node/" + *rt.Link)
+				what = "root node object"
+			}
+			rows, err := runDiff(A, cur, false)
+			w.st.Restore(snap)
+			c.Count("vanished_version_diffs", 1)
+			if err == nil {
+				fail("vanished-version-read-as-empty", fmt.Sprintf("the %s of 'from' version %s was removed (as a vacuum does); s3db_changes reported success with %d rows instead of failing", what, A.Raw, len(rows)))
+				break
 			}
 		}
 	}
